@@ -1697,11 +1697,17 @@ bool World::exec_foreign_op(const Step& s)
     if (s.op == "f_rmw_t")
     {
         // table API: get() then update() of the unchanged row
-        Outcome o = call(s.fault, [&] {
-            auto row = tt.get(id);
-            if (row)
-                tt.update(*row);
-        });
+        std::optional<v2::track_row> row;
+        Outcome og = call(FaultSpec{}, [&] { row = tt.get(id); });
+        Outcome o = og;
+        if (!og.threw && row)
+        {
+            o = call(s.fault, [&] { tt.update(*row); });
+            // the decoders accepted every stored blob of this row: re-encoding the decoded value may not be refused
+            if (o.threw && !o.fault_fired)
+                report("C04", "C04|t_get_update|v2|reencode-refused",
+                       "get() decoded the row's blobs but update() of the unchanged row threw " + o.exc + ": " + o.what);
+        }
         note("f_rmw_t track " + std::to_string(id) + (o.threw ? " -> threw " + o.exc + ": " + o.what : " -> ok"));
         check_preserved(*this, "t_get_update", id, before, {}, o.threw);
         finish(s.op);
@@ -1711,16 +1717,21 @@ bool World::exec_foreign_op(const Step& s)
     {
         unsigned k = (unsigned)((uint64_t)arg(1) % 5);
         static const char* names[] = {"track_data", "overview_waveform_data", "beat_data", "quick_cues", "loops"};
+        bool decoded = false;
         Outcome o = call(s.fault, [&] {
             switch (k)
             {
-                case 0: tt.set_track_data(id, tt.get_track_data(id)); break;
-                case 1: tt.set_overview_waveform_data(id, tt.get_overview_waveform_data(id)); break;
-                case 2: tt.set_beat_data(id, tt.get_beat_data(id)); break;
-                case 3: tt.set_quick_cues(id, tt.get_quick_cues(id)); break;
-                default: tt.set_loops(id, tt.get_loops(id)); break;
+                case 0: { auto v = tt.get_track_data(id); decoded = true; tt.set_track_data(id, v); break; }
+                case 1: { auto v = tt.get_overview_waveform_data(id); decoded = true; tt.set_overview_waveform_data(id, v); break; }
+                case 2: { auto v = tt.get_beat_data(id); decoded = true; tt.set_beat_data(id, v); break; }
+                case 3: { auto v = tt.get_quick_cues(id); decoded = true; tt.set_quick_cues(id, v); break; }
+                default: { auto v = tt.get_loops(id); decoded = true; tt.set_loops(id, v); break; }
             }
         });
+        if (o.threw && decoded && !o.fault_fired)
+            report("C04", std::string("C04|t_get_set_") + names[k] + "|v2|reencode-refused",
+                   std::string("the ") + names[k] + " getter decoded the stored blob but writing the same value back threw " + o.exc + ": " +
+                       o.what);
         note(std::string("f_rmw_col ") + names[k] + " track " + std::to_string(id) + (o.threw ? " -> threw " + o.exc + ": " + o.what : " -> ok"));
         check_preserved(*this, std::string("t_get_set_") + names[k], id, before, {}, o.threw);
         finish(s.op);
